@@ -71,6 +71,29 @@ Lemma cable_compute_rest (bs : list (@CBody R)) (qfrc : list R) :
   (forall b : @CBody R, In b (tl bs) -> at_reference b) -> cable_compute bs qfrc = qfrc.
 Proof. intros Hall. unfold cable_compute. apply cable_loop_rest. exact Hall. Qed.
 
+(* constructor and Compute agree at qpos0: the quaternion of a ball joint in qpos0 is the identity, and
+   then the reference curvature computed by the constructor is the curvature Compute measures there *)
+Lemma omega0_is_rest_curvature (bq : quat R) :
+  cable_omega0 false true bq quatId = curvature (quatDiff bq quatId false).
+Proof.
+  unfold cable_omega0, quatDiff, curvature, subQuat. cbn [andb negb].
+  destruct bq as [[[b0 b1] b2] b3].
+  assert (E1 : mulQuat (negQuat (quatId (T:=R))) (b0, b1, b2, b3) = (b0, b1, b2, b3)).
+  { unfold mulQuat, negQuat, quatId. num_R. apply quat_ext; ring. }
+  assert (E2 : mulQuat (b0, b1, b2, b3) (quatId (T:=R)) = (b0, b1, b2, b3)).
+  { unfold mulQuat, quatId. num_R. apply quat_ext; ring. }
+  rewrite E1, E2. reflexivity.
+Qed.
+
+(* hence a non-flat cable whose reference curvatures come from the constructor exerts no force at qpos0 *)
+Lemma cable_rest_at_qpos0 (b0 : @CBody R) (rest : list (@CBody R)) (qfrc : list R) :
+  (forall b : @CBody R, In b rest -> c_jq b = quatId /\ c_w0 b = cable_omega0 false true (c_bq b) quatId) ->
+  cable_compute (b0 :: rest) qfrc = qfrc.
+Proof.
+  intros Hall. apply cable_compute_rest. intros b Hb. cbn [tl] in Hb. destruct (Hall b Hb) as [E1 E2].
+  unfold at_reference. rewrite E1, E2. symmetry. apply omega0_is_rest_curvature.
+Qed.
+
 (* converse direction (non-vacuity): without pull-back a curvature component that differs from the
    reference along a stiff direction gives a non-zero stress *)
 Lemma localStress_nonrest (k0 k1 k2 len : R) (q : quat R) (w0 : vec3 R) :
